@@ -17,6 +17,10 @@ EA_T == {"{", "}", NL, "abc"}
 EB_Q == {1, 3}
 EB_T == {3}
 
+\* inputs that were once mishandled (found by the thorough tier's double edits), checked in every tier
+Regress == { <<"colvar", "}", "{", NL, "name", "x", NL, "distanceZ", "{", NL, "main", "{", NL, "atomNumbers", "2", NL, "}", NL, "ref", "{", NL, "dummyAtom", "(0,0,1)", NL, "}", NL, "}", NL, "}", "{", NL>>,
+             <<"}", "colvar", "{", NL, "name", "x", NL, "}", "{", NL>>,
+             <<"colvarsTrajFrequency", "2", NL, "}", NL, "colvar", "{", NL, "name", "x", NL, "{", NL>> }
 NoInfo == [base |-> 0, lay |-> PlainLayout, m |-> "-"]
 \* seeds spread the expansion of the case families over the workers (initial states are computed by one thread)
 MCInit ==
@@ -25,6 +29,7 @@ MCInit ==
           kind = "seedL" /\ info = [base |-> i, lay |-> [PlainLayout EXCEPT !.blank = bl, !.comment = cm, !.split = sp], m |-> "-"]
      \/ \E i \in DOMAIN Base : kind = "seedM" /\ info = [NoInfo EXCEPT !.base = i]
      \/ kind = "str" /\ info = NoInfo
+     \/ kind = "seedR" /\ info = NoInfo
      \/ \E i \in EditBases : kind = "seedE" /\ info = [NoInfo EXCEPT !.base = i]
 
 MCNext ==
@@ -33,6 +38,7 @@ MCNext ==
                             /\ info' = [info EXCEPT !.lay = L] /\ toks' = Flatten(Base[info.base], L)
   \/ /\ kind = "seedM" /\ kind' = "mut" /\ n' = 0
      /\ \E x \in Muts(Base[info.base], "top") : toks' = Flatten(x.items, PlainLayout) /\ info' = [info EXCEPT !.m = x.m]
+  \/ kind = "seedR" /\ kind' = "regress" /\ toks' \in Regress /\ n' = 0 /\ UNCHANGED info
   \/ kind = "seedE" /\ kind' = "edit" /\ toks' = Plain(info.base) /\ n' = 0 /\ UNCHANGED info
   \/ kind = "str" /\ n < MaxLen /\ \E a \in Alphabet : toks' = Append(toks, a) /\ n' = n + 1 /\ UNCHANGED <<kind, info>>
   \/ kind = "edit" /\ n < MaxEdits /\ toks' \in Edits(toks, EditAlphabet) /\ n' = n + 1 /\ UNCHANGED <<kind, info>>
@@ -46,7 +52,7 @@ MutRejected == kind = "mut" => V = "R"
 UnbalancedRejected == ~Balanced(toks) => V = "R"
 AcceptBalanced == V = "OK" => Balanced(toks) /\ Cnt(StripComments(toks), 1, 0) = 0
 
-Emit == kind \in {"seedL", "seedM", "seedE"} \/ PrintT(<<"BEH", ToJson([kind |-> kind, toks |-> toks, v |-> V, why |-> VerdictW(toks).why, base |-> info.base, lay |-> info.lay, m |-> info.m,
+Emit == kind \in {"seedL", "seedM", "seedE", "seedR"} \/ PrintT(<<"BEH", ToJson([kind |-> kind, toks |-> toks, v |-> V, why |-> VerdictW(toks).why, base |-> info.base, lay |-> info.lay, m |-> info.m,
                                 ncv |-> IF V = "OK" THEN NumOf(toks, "colvar") ELSE 0,
                                 nb |-> IF V = "OK" THEN NumOf(toks, "harmonic") ELSE 0])>>)
 
